@@ -189,16 +189,17 @@ def evaluate(spec):
                 if gg not in exp.deleted_blocks:
                     (optional if via_data else want).add(exp.block_start[gg])
                     break
-                if gg in exp.proxy_blocks:
+                if gg in exp.proxy_blocks and case.blocks[gg].code:
                     break
                 k += 1
                 if k >= len(sec_idxs):
                     break
                 nb = case.blocks[sec_idxs[k]]
-                if not nb.code and sec_idxs[k] in exp.deleted_blocks and sec_idxs[k] not in exp.proxy_blocks:
+                if not nb.code and sec_idxs[k] in exp.deleted_blocks:
                     # wholly deleted data between the entry and the next block of
                     # the function: the property only forbids promotion across
-                    # functions, so both outcomes are accepted
+                    # functions, so both outcomes are accepted (whether or not the
+                    # data was deleted with retarget_to_proxy)
                     via_data = True
                     continue
                 if not nb.code or nb.func != f:
